@@ -73,6 +73,9 @@ def grain_data(case, gidx, variant):
     raw = core.stamp(gidx * gsz, gsz, case["salt"] ^ 0x5A5A)
     if variant == 1:
         return raw
+    if variant == 2:
+        # a pattern-filled grain: its whole compressed stream (plus marker) fits inside one sector
+        return bytes([raw[0]]) * gsz
     b = bytearray(gsz)
     b[0::5] = raw[0::5]
     return bytes(b)
@@ -313,7 +316,7 @@ def gen_sparse(rng, tier, kind):
             if place == "dup" and prev is not None and rng.chance(0.3):
                 phys[g] = phys[prev]
                 continue
-            variant = 1 if rng.chance(0.25) else 0
+            variant = rng.weighted([(0, 11), (1, 5), (2, 4)])
             hdr, cdata, _ = compressed_grain(c | {"grain_size": gs}, g, variant)
             need = (len(hdr) + len(cdata) + SECTOR - 1) // SECTOR
             if pitch_gs and need > gs:
